@@ -29,7 +29,7 @@ CODE_SIG = {
     5: ("diagnostic-quotes-another-line", "the line quoted by the diagnostic is not that line of that file"),
     6: ("fault-reported-at-wrong-position", "a planted fault was not reported at exactly its own file and line with its include chain (position and chain are compared, not the wording)"),
     7: ("fault-not-reported", "an invalid clause / missing include / unterminated continuation was accepted"),
-    9: ("valid-include-graph-refused", "files made of titles, comments and resolvable includes nested at most ten deep must be read through, but the reader refuses them"),
+    9: ("valid-configuration-refused", "a configuration known to be valid (include graphs made of titles, comments and resolvable includes nested at most ten deep; valid corpus texts) must be read through, but it is refused"),
     8: ("include-chain-unreadable", "the include chain of the diagnostic is not a list of <file>:<line> entries"),
 }
 
